@@ -1,7 +1,7 @@
 (* Lemmas about M_SymbolizeFetch (C12): the driver's pipeline around Symbolize (fake mapping,
    collectMappingSources, Symbolize, unsourceMappings, CheckValid) satisfies the same clauses as
    Symbolize itself, the mapping files being restored -- outside class F34. *)
-From PV Require Import M_Symbolize M_SymbolizeFetch S_Symbolize L_Symbolize L_SymbolizeCheck L_SymbolizeFlags.
+From PV Require Import M_Symbolize M_SymbolizeFetch S_Symbolize L_Symbolize L_SymbolizeValid L_SymbolizeCheck L_SymbolizeFlags.
 Open Scope Z_scope.
 
 Lemma map_eq_Forall2 {A K} (k : A -> K) : forall l l', map k l' = map k l -> Forall2 (fun a b => k b = k a) l l'.
@@ -208,4 +208,165 @@ Proof.
   unfold fetch_symbolize, fetch_generic, builtin_plugin. cbn zeta.
   destruct (symbolize mode _ script _) as [p2 [|] c2|]; [reflexivity | | reflexivity].
   destruct (check_valid _); reflexivity.
+Qed.
+
+(* ------------------------------------------------------------------ the command line *)
+Lemma check_valid_maps_ids p ms ls :
+  map m_id ms = map m_id (p_mapping p) -> ls = p_location p ->
+  check_valid (with_maps_locs p ms ls) = check_valid p.
+Proof.
+  intros Hm ->. unfold check_valid, samples_ok. cbn [with_maps_locs p_sampletype p_sample p_mapping p_function p_location].
+  rewrite Hm. reflexivity.
+Qed.
+
+Lemma unsource_id absurl m : m_id (unsource absurl m) = m_id m.
+Proof. unfold unsource. destruct (str_empty (m_buildid m) && absurl (m_file m)); reflexivity. Qed.
+
+Lemma check_valid_unsourced absurl p2 :
+  check_valid (with_maps_locs p2 (map (unsource absurl) (p_mapping p2)) (p_location p2)) = check_valid p2.
+Proof.
+  apply check_valid_maps_ids; [|reflexivity]. rewrite map_map. apply map_ext. apply unsource_id.
+Qed.
+
+Lemma sourced_maps_ids src p0 : map m_id (snd (sourced_maps src p0)) = map m_id (p_mapping p0).
+Proof.
+  unfold sourced_maps. destruct (str_empty src); cbn [snd]; [reflexivity|].
+  apply Forall2_map_eq. eapply Forall2_impl; [|apply collect_rel]. intros m m1 [->|[_ [_ ->]]]; reflexivity.
+Qed.
+
+Lemma add_fake_valid p : check_valid p = true -> check_valid (add_fake p) = true.
+Proof.
+  unfold add_fake. destruct (p_mapping p) as [|m r] eqn:E; cbn [is_nil]; [|auto].
+  unfold check_valid, samples_ok. cbn [with_maps_locs p_sampletype p_sample p_mapping p_function p_location].
+  rewrite E. cbn [map]. rewrite !andb_true_iff. intros [[[[[HS1 HS2] _] HF] HL] HK].
+  rewrite map_map. cbn [set_mapping l_id].
+  split; [split; [split; [split; [split; assumption | reflexivity] | exact HF] | exact HL]|].
+  rewrite forallb_forall in *. intros l' Hin. apply in_map_iff in Hin. destruct Hin as [l [<- Hl]].
+  specialize (HK l Hl). unfold loc_ok in *. cbn [set_mapping l_mapping l_lines fake_mapping m_id map].
+  apply andb_true_iff in HK. destruct HK as [_ HK]. rewrite HK. reflexivity.
+Qed.
+
+Lemma cli_overrides_ids c p : map m_id (p_mapping (cli_overrides c p)) = map m_id (p_mapping p) /\
+                              p_location (cli_overrides c p) = p_location p.
+Proof.
+  unfold cli_overrides. destruct (p_mapping p) as [|m r] eqn:E; [rewrite E; auto|].
+  cbn [with_maps_locs p_mapping p_location map]. split; [|reflexivity]. f_equal.
+  unfold override_main. destruct (str_empty (c_exec c)); destruct (negb (str_empty (c_buildid c)) && _); reflexivity.
+Qed.
+
+Lemma cli_input_valid c p : check_valid p = true -> check_valid (cli_input c p) = true.
+Proof.
+  intros H. apply add_fake_valid in H. unfold cli_input.
+  destruct (cli_overrides_ids c (add_fake p)) as [Hm Hl].
+  unfold cli_overrides in *. destruct (p_mapping (add_fake p)) as [|m r] eqn:E; [exact H|].
+  rewrite check_valid_maps_ids; [exact H | | reflexivity]. cbn [with_maps_locs p_mapping] in Hm. rewrite Hm, E. reflexivity.
+Qed.
+
+Lemma cli_input_fake c p : add_fake (cli_input c p) = cli_input c p.
+Proof.
+  unfold add_fake at 1. destruct (p_mapping (cli_input c p)) eqn:E; [|reflexivity]. exfalso.
+  unfold cli_input, cli_overrides in E. unfold add_fake in E.
+  destruct (p_mapping p) eqn:EP; cbn [is_nil with_maps_locs p_mapping] in E; [discriminate|].
+  rewrite EP in E. cbn [with_maps_locs p_mapping] in E. discriminate.
+Qed.
+
+(* pprof fails only when the symbol service failed or the function ids ran out *)
+Lemma fetch_cli_fails_lemma e script c mode absurl src p calls :
+  fetch_cli (builtin_plugin e script) c mode absurl src p = FErr calls -> check_valid p = true ->
+  exists srcs p1 p2, check_valid p1 = true /\
+    (symbolize mode (with_srcs e srcs) script p1 = Out p2 true calls \/
+     (symbolize mode (with_srcs e srcs) script p1 = Out p2 false calls /\ ~ id_headroom p1 p2)).
+Proof.
+  intros HF HV. pose proof (cli_input_valid c p HV) as HV0.
+  unfold fetch_cli in HF.
+  destruct (fetch_generic (builtin_plugin e script) mode absurl src (cli_input c p)) as [p3 c3|c3|] eqn:EG; try discriminate.
+  inversion HF; subst c3. clear HF.
+  rewrite <- fetch_symbolize_generic_lemma in EG. unfold fetch_symbolize in EG. cbn zeta in EG.
+  rewrite cli_input_fake in EG. set (q := cli_input c p) in *.
+  match type of EG with context [symbolize mode (with_srcs e ?S1) script ?P1] => set (s1 := S1) in *; set (p1 := P1) in * end.
+  assert (HV1 : check_valid p1 = true).
+  { unfold p1. rewrite check_valid_maps_ids; [exact HV0 | exact (sourced_maps_ids src q) | reflexivity]. }
+  exists s1, p1.
+  destruct (symbolize mode (with_srcs e s1) script p1) as [p2 [|] c2|] eqn:ES; [| |discriminate].
+  - inversion EG; subst. exists p2. split; [exact HV1 | left; reflexivity].
+  - exists p2. split; [exact HV1 | right].
+    rewrite check_valid_unsourced in EG.
+    destruct (check_valid p2) eqn:EV2; [discriminate|]. inversion EG; subst.
+    split; [reflexivity|]. intros Hh.
+    pose proof (L_SymbolizeValid.symbolize_valid_lemma _ _ _ _ _ _ _ HV1 ES Hh). congruence.
+Qed.
+
+(* the clauses carry over to the command line: the comment is appended on both sides *)
+Lemma frame_ok_comment c p p' : frame_ok p p' -> frame_ok (add_comment c p) (add_comment c p').
+Proof.
+  intros [S H L M F]. unfold add_comment. destruct (str_empty (c_comment c)); [constructor; assumption|].
+  constructor; cbn [p_sample p_location p_mapping p_function]; try assumption.
+  unfold header_of in *. cbn [p_sampletype p_defaultsampletype p_comments p_docurl p_dropframes p_keepframes p_timenanos p_durationnanos p_periodtype p_period].
+  inversion H. congruence.
+Qed.
+
+Lemma add_comment_same c p : p_mapping (add_comment c p) = p_mapping p /\ p_location (add_comment c p) = p_location p /\
+                             p_function (add_comment c p) = p_function p.
+Proof. unfold add_comment. destruct (str_empty (c_comment c)); auto. Qed.
+
+Lemma fetch_cli_core plug c mode absurl src p p4 calls :
+  fetch_cli plug c mode absurl src p = FOut p4 calls ->
+  exists p3, fetch_generic plug mode absurl src (cli_input c p) = FOut p3 calls /\ p4 = add_comment c p3.
+Proof.
+  unfold fetch_cli. destruct (fetch_generic plug mode absurl src (cli_input c p)) as [p3 c3|c3|]; try discriminate.
+  intros H; inversion H; subst. eauto.
+Qed.
+
+Lemma fetch_cli_frame_lemma e script c mode absurl src p p4 calls :
+  fetch_cli (builtin_plugin e script) c mode absurl src p = FOut p4 calls ->
+  src_ok absurl src -> in_F34 absurl (cli_input c p) = false ->
+  frame_ok (add_comment c (cli_input c p)) p4.
+Proof.
+  intros HF Hs H34. destruct (fetch_cli_core _ _ _ _ _ _ _ _ HF) as [p3 [HG ->]].
+  rewrite <- fetch_symbolize_generic_lemma in HG. apply frame_ok_comment.
+  rewrite <- (cli_input_fake c p). eapply fetch_frame_lemma; eauto. rewrite cli_input_fake. exact H34.
+Qed.
+
+Lemma left_alone_comment c p p' : left_alone p p' -> left_alone (add_comment c p) (add_comment c p').
+Proof.
+  unfold left_alone, loc_protected. destruct (add_comment_same c p) as [M [L _]]. destruct (add_comment_same c p') as [M' [L' _]].
+  rewrite M, L, M', L'. auto.
+Qed.
+
+(* THE clause of the named executable: without force, a main binary that carries symbols keeps its
+   flags and its lines whatever executable, build id or comment the command line names *)
+Lemma fetch_cli_left_alone_lemma e script c mode absurl src p p4 calls :
+  fetch_cli (builtin_plugin e script) c mode absurl src p = FOut p4 calls ->
+  force_requested mode = false -> src_ok absurl src -> in_F34 absurl (cli_input c p) = false ->
+  left_alone (add_comment c (cli_input c p)) p4.
+Proof.
+  intros HF Hforce Hs H34. destruct (fetch_cli_core _ _ _ _ _ _ _ _ HF) as [p3 [HG ->]].
+  rewrite <- fetch_symbolize_generic_lemma in HG. apply left_alone_comment.
+  rewrite <- (cli_input_fake c p). eapply fetch_left_alone_lemma; eauto. rewrite cli_input_fake. exact H34.
+Qed.
+
+Lemma fetch_cli_valid_lemma plug c mode absurl src p p4 calls :
+  fetch_cli plug c mode absurl src p = FOut p4 calls -> check_valid p4 = true.
+Proof.
+  intros HF. destruct (fetch_cli_core _ _ _ _ _ _ _ _ HF) as [p3 [HG ->]].
+  pose proof (fetch_generic_valid_lemma _ _ _ _ _ _ _ HG) as HV.
+  unfold add_comment. destruct (str_empty (c_comment c)); [exact HV|]. exact HV.
+Qed.
+
+(* naming the executable changes the file of the main mapping and nothing else *)
+Lemma cli_input_flags c p :
+  Forall2 (fun m m' => map_key m' = map_key m \/ (m_id m' = m_id m /\ m_start m' = m_start m /\ m_limit m' = m_limit m /\ m_offset m' = m_offset m))
+          (p_mapping (add_fake p)) (p_mapping (cli_input c p)) /\
+  Forall2 (fun m m' => m_hasfn m' = m_hasfn m /\ m_hasfile m' = m_hasfile m /\ m_hasline m' = m_hasline m /\ m_hasinline m' = m_hasinline m)
+          (p_mapping (add_fake p)) (p_mapping (cli_input c p)) /\
+  p_location (cli_input c p) = p_location (add_fake p) /\ p_function (cli_input c p) = p_function (add_fake p) /\
+  p_sample (cli_input c p) = p_sample (add_fake p).
+Proof.
+  unfold cli_input, cli_overrides. destruct (p_mapping (add_fake p)) as [|m r] eqn:E.
+  - rewrite E. repeat split; constructor.
+  - cbn [with_maps_locs p_mapping p_location p_function p_sample]. repeat split.
+    + constructor; [|apply Forall2_refl; auto]. right. unfold override_main.
+      destruct (str_empty (c_exec c)); destruct (negb (str_empty (c_buildid c)) && _); repeat split; reflexivity.
+    + constructor; [|apply Forall2_refl; auto]. unfold override_main.
+      destruct (str_empty (c_exec c)); destruct (negb (str_empty (c_buildid c)) && _); repeat split; reflexivity.
 Qed.
